@@ -179,9 +179,18 @@ func init() {
 	reg("strconv.ParseUint", func(p *preCall) Val {
 		fc := p.fc()
 		s := p.str(0)
-		// base 10, 64 bits (checked)
-		v := fc.B.Fresh("parsed", "Int")
-		e := fc.B.Fresh("perr", "Int")
+		// base 10, 64 bits (checked); deterministic: value and error are functions of the input string
+		fc.B.DeclFun("parseuint_val", []string{"String"}, "Int")
+		fc.B.DeclFun("parseuint_err", []string{"String"}, "Int")
+		if strings.Contains(s, "qv!") {
+			fc.unsupported("ParseUint under a quantifier")
+		}
+		v := "(parseuint_val " + s + ")"
+		e := "(parseuint_err " + s + ")"
+		if fc.B.inst["parseuint|"+s] {
+			return tup(Val{S: "Int", T: v, Typ: types.Typ[types.Uint64]}, Val{S: "Int", T: e, Typ: types.Universe.Lookup("error").Type()})
+		}
+		fc.B.inst["parseuint|"+s] = true
 		// success iff s is a decimal string of a number < 2^bits; then dec(v) with leading zeros stripped... we only state:
 		//   err == nil ==> isdigits(s) && 0 <= v < 2^64 && (s == dec(v) || s has leading zeros)
 		//   s == dec(x) && 0 <= x < 2^64 ==> err == nil && v == x
@@ -590,9 +599,20 @@ func (fr *Frame) varargElem(p *preCall, va Val, i int) (Val, bool) {
 func (fr *Frame) split(p *preCall) Val {
 	fc := fr.fc
 	s, sep := p.str(0), p.str(1)
-	res := fc.B.Fresh("split", "(Slice String)")
-	n := "(s_len " + res + ")"
+	// deterministic: the result is a function of (s, sep)
+	fc.B.DeclFun("split_fn", []string{"String", "String"}, "(Slice String)")
 	fc.B.DeclFun("join_str", []string{"(Slice String)", "String"}, "String")
+	resT := "(split_fn " + s + " " + sep + ")"
+	if fc.B.inst["split|"+resT] || strings.Contains(resT, "qv!") {
+		if strings.Contains(resT, "qv!") {
+			fc.unsupported("strings.Split under a quantifier")
+		}
+		return Val{S: "(Slice String)", T: fc.B.inst2["split|"+resT], Typ: types.NewSlice(types.Typ[types.String])}
+	}
+	res := fc.B.Define("split", "(Slice String)", resT)
+	fc.B.inst["split|"+resT] = true
+	fc.B.inst2["split|"+resT] = res
+	n := "(s_len " + res + ")"
 	// exact unrolling of the first K parts (for a non-empty separator): part i is the text before the
 	// first separator of the remainder r_i; the number of parts is exact up to K and ">= K+1" beyond.
 	const K = 3
@@ -694,6 +714,9 @@ func (fc *FnCtx) loadGlobal(g *ssa.Global, t types.Type) Val {
 	}
 	if v, ok := fc.globalConst(pk, g.Name(), t); ok {
 		return v
+	}
+	if _, isFn := t.Underlying().(*types.Signature); isFn {
+		return Val{S: "Int", T: "0", Typ: t, Fn: &FnVal{Special: "globalfn:" + pk + "." + g.Name()}}
 	}
 	name := "glob_" + sanitize(shortPkg(pk)) + "_" + g.Name()
 	s := fc.B.SortOf(t)
